@@ -241,7 +241,17 @@ where
     for (i, r) in results {
         match r {
             Ok(bytes) => match RunOutcome::from_bytes(&bytes) {
-                Some(o) => {
+                Some(mut o) => {
+                    // a run in which the scheduler had to hand the baton on because its holder blocked on a
+                    // lock of the code under test is not bit-exact by construction: say so in its replays
+                    let handoffs = o.stats.counters.get("sched.lock_handoffs").copied().unwrap_or(0);
+                    if handoffs > 0 {
+                        for v in o.violations.iter_mut() {
+                            if let Value::Object(m) = &mut v.replay {
+                                m.insert("lock_handoffs".into(), json!(handoffs));
+                            }
+                        }
+                    }
                     out.stats.merge(o.stats);
                     out.violations.extend(o.violations);
                 }
@@ -434,6 +444,10 @@ impl Report {
             }
             let mut reported = false;
             let mut last: Option<String> = None;
+            // runs that involved real locks replay with probability < 1: several attempts each
+            let racy = v.replay.get("lock_handoffs").and_then(|x| x.as_u64()).unwrap_or(0) > 0;
+            let attempts = if racy { 4 } else { 1 };
+            let ncand = candidates.len();
             for (ci, cand) in candidates.into_iter().enumerate() {
                 let mut doc = cand;
                 if let Value::Object(m) = &mut doc {
@@ -452,16 +466,35 @@ impl Report {
                     break;
                 }
                 // the replay must reproduce the same class in a fresh process before we report it
-                match confirm(&doc) {
-                    Some(c) if c == v.class => {
-                        println!("VIOLATION property={} replay={}", v.property, path.display());
-                        println!("  class: {}", v.class);
-                        println!("  detail: {}", v.detail);
-                        new_violations += 1;
-                        reported = true;
-                        break;
+                for _ in 0..attempts {
+                    match confirm(&doc) {
+                        Some(c) if c == v.class => {
+                            println!("VIOLATION property={} replay={}", v.property, path.display());
+                            println!("  class: {}", v.class);
+                            println!("  detail: {}", v.detail);
+                            new_violations += 1;
+                            reported = true;
+                            break;
+                        }
+                        other => last = other,
                     }
-                    other => last = other,
+                }
+                if reported {
+                    break;
+                }
+                if racy && ci + 1 == ncand {
+                    // Observed in the real code, in a run whose schedule depended on real locks (the baton
+                    // holder blocked and the baton was handed on): the failure is genuine, the schedule is
+                    // not bit-exact, and this file reproduces it only with some probability.
+                    if let Value::Object(m) = &mut doc {
+                        m.insert("note".into(), json!("observed once in a run that blocked on locks of the code under test; its schedule is not bit-exact, so this file reproduces the violation with probability < 1 (it did not in the confirmation attempts)"));
+                    }
+                    let _ = std::fs::write(&path, serde_json::to_string_pretty(&doc).unwrap());
+                    println!("VIOLATION property={} replay={}", v.property, path.display());
+                    println!("  class: {}", v.class);
+                    println!("  detail: {} (schedule involved real locks; replay is probabilistic)", v.detail);
+                    new_violations += 1;
+                    reported = true;
                 }
             }
             if !reported {
